@@ -35,13 +35,14 @@ Section Inv.
     forall p m t, s !! p = Some (Link m t) ->
       tnb t = t /\ tnk t = t /\ t <> [] /\ accb t p /\ acck t p /\ m_perm m = 511.
 
+  Definition tracked (w : world) (q : str) : Prop := w_infos w !! q <> None.
+
   Record Inv (w : world) : Prop := mkInv {
     inv_quiet : quiet w;
     inv_wf_b : swf (Vb w);
     inv_wf_k : swf (Vk w);
-    (** untracked paths are as they were *)
-    inv_untracked : forall p, w_infos w !! p = None -> p <> s_root ->
-                      sonode_eqv (Vb w !! p) (B0 !! p);
+    (** untracked paths are as they were (directory and link timestamps aside) *)
+    inv_untracked : forall p, w_infos w !! p = None -> sonode_eqv (Vb w !! p) (B0 !! p);
     (** tracked "did not exist" *)
     inv_none : forall p, w_infos w !! p = Some None -> B0 !! p = None;
     (** tracked "existed": the info is the original's, and (except for the
@@ -49,11 +50,10 @@ Section Inv.
     inv_some : forall p fi, w_infos w !! p = Some (Some fi) ->
                  exists n0, B0 !! p = Some n0 /\ info_matches fi n0 /\
                             (p = s_root \/ exists nk, Vk w !! p = Some nk /\ copy_of n0 nk);
-    (** tracked paths are resolved, closed under ancestors *)
-    inv_closed : forall p, w_infos w !! p <> None ->
-                   abs_cleaned p /\ Forall (fun q => w_infos w !! q <> None) (ancestors p);
-    inv_nolink0 : forall p, w_infos w !! p <> None -> snolinkpar B0 p;
-    inv_nolink : forall p, w_infos w !! p <> None -> snolinkpar (Vb w) p;
+    (** tracked paths are resolved; the ancestors of a tracked original are tracked *)
+    inv_abs : forall p, tracked w p -> abs_cleaned p;
+    inv_closed : forall p fi, w_infos w !! p = Some (Some fi) -> Forall (tracked w) (ancestors p);
+    inv_nolink : forall p, tracked w p -> snolinkpar (Vb w) p;
     (** the backup holds nothing but those copies *)
     inv_backup_only : forall p, p <> s_root -> Vk w !! p <> None ->
                         exists fi, w_infos w !! p = Some (Some fi);
